@@ -72,6 +72,13 @@ def gen_case(rng):
         if rng.random() < 0.3:
             uris.append(d)
     rng.shuffle(uris)
+    k = rng.random()
+    if k < 0.06:
+        uris = []                                         # a server whose <hello> lists no capability at all
+    elif k < 0.10:
+        uris = [u for u in uris if u in DECOYS] or list(DECOYS[:1])        # only module namespaces, no IETF capability
+    elif k < 0.14:
+        uris = ['urn:ietf:params:netconf:base:1.0']
     return {'kind': 'gate', 'call': ci, 'args': a, 'uris': uris, 'profile': rng.choice(['default', 'junos', 'sros', 'default'])}
 
 
@@ -80,7 +87,7 @@ class C09(Check):
     PROPS_MODULE = 'NcVerif.Props.C09'
     RULE = ('(a) the regenerated operation table: every standard and vendor operation x argument shape (incl. junos / sros commit), probed on the '
             'real code with all capabilities and with each asserted capability removed (every row is a case); (b) random subsets of the '
-            'relevant server capabilities in both URN forms, with-defaults basic-mode / also-supported variants, x gated calls x profiles, '
+            'relevant server capabilities in both URN forms (incl. the empty list, base-only and module-namespaces-only), with-defaults basic-mode / also-supported variants, x gated calls x profiles, '
             'executed through the real Manager on a stub session: exception class and silence on the wire compared with the model of the gate. '
             'Non-trivial = a call with at least one documented dependency; distinct by case.')
     TRUST = ['the catalogue of argument shapes in harness/gen/optable.py (which calls are probed)']
